@@ -165,7 +165,7 @@ func min(a, b int) int {
 
 // Run is the C10 check.
 func Run(c *core.Ctx) int {
-	n := c.N(32, 1000)
+	n := c.N(32, 400)
 	var mu sync.Mutex
 	programs, lines, suspends, pkgsSeen := 0, 0, 0, 0
 	distinct := map[string]bool{}
